@@ -68,6 +68,10 @@ CLAIMS = {
    text='Partial: (1) at every call site the format-specific helper handed to the native encoder/decoder (down-mix reader, channel copy-in/out) accesses the caller\'s untyped PCM buffer with that buffer\'s element type - the helper/buffer pairing is derived from the indirect calls and propagated through forwarding calls, over single-stream, multistream and projection entry points in four build configurations; (2) soft clipping is requested only by the 16-bit decoders of the float build and covers exactly the returned samples; (3) scale constants agree (x256 between 16- and 24-bit input, output x input = 1); (4) each entry point declares the depth of its format and lsb_depth is capped by the user setting before any use; (5) each helper converts every sample it reads the same way; (6) every public PCM entry point reaches the single native path exactly once. One genuine defect found by (1) was repaired (projection encode24). Packet identity across formats and exact rounding relations are NOT decided.',
    note=TRUST,
    technique='derived function-pointer/buffer pairing (fixpoint over indirect and forwarding calls) + type agreement of casts; constant-argument rule; expression normalisation for sibling agreement; constant folding of conversion scales'),
+ 'C09': dict(category='other',
+   text='Partial (duration/capacity skeleton and side-information agreement): the 2.5 ms-multiple test lies on every path to concealment and FEC; the PLC loop and the chunked (>20 ms) concealment hand the frame decoder exactly the remaining capacity at the matching offset (one cursor), add what was produced and report the requested count; the FEC branch is PLC(frame_size-packet_frame_size) plus one frame decoded at exactly that offset, entered only when frame_size >= packet_frame_size; every SILK concealment attenuation factor is in (0,1) and clamp-indexed (interval analysis with the lossCnt >= 0 invariant derived from its writers); <=1-byte payloads go to concealment bounded by the TOC duration; encoder and decoder decide the presence of the mid-only symbol from the same flag (decision tables over side VAD/LBRR flags) in normal, FEC and LBRR-skip contexts; CELT loss counter saturation/reset, bounded rise of the noise floor after an outage, safe energy prediction after loss. Output levels, decay, FEC accuracy and re-convergence are NOT decided (numeric, signal dependent).',
+   note=TRUST,
+   technique='cursor/budget pattern rules over the CFG (must-pass-through, dominance facts) + decision-table extraction with a resolver + interval abstract interpretation for table indices + table predicates'),
 }
 
 NA_REASON = {
